@@ -237,7 +237,7 @@ def run_case(ctx, d):
 
     # --- AUC: trapezoidal mean of the dict values
     if len(vals) >= 2:
-        v64 = [Fraction(v) for v in vals]
+        v64 = [fr(v) for v in vals]
         trap = (sum(v64) - (v64[0] + v64[-1]) / 2) / (len(v64) - 1)
         ctx.check_pred("auc-trapezoid", [auc], [trap], d, rtol=1e-4, atol=2e-5)
         if same_keys and tie_free and not act:
